@@ -1,17 +1,15 @@
 import OZ.DrvUtil
 import OZ.Model.RegUtil
+import OZ.Model.RegMonUtil
 /-
-Printing / parsing helpers shared by the eight sub-drivers of C20, and the tiny "plain set"
-vocabulary of the monitors (lists used as sets; the monitors never call a model function).
+Printing / parsing helpers shared by the eight sub-drivers of C20. The printing helpers the monitors
+compare with, the tiny "plain set" vocabulary of the monitors (lists used as sets; the monitors never
+call a model function) and the verdict sites live in OZ/Model/RegMonUtil.lean (re-exported here).
 -/
 namespace OZ.Drv.C20
 open OZ.Drv
 
-def bit (b : Bool) : String := if b then "1" else "0"
-def bits (l : List Bool) : String := if l.isEmpty then "-" else "".intercalate (l.map bit)
-
-def nats (l : List Nat) : String := showList toString l
-def sepBy (sep : String) (l : List String) : String := if l.isEmpty then "-" else sep.intercalate l
+export OZ.RegMon (bit bits nats sepBy showOpt sameSet nodupB firstFail chk refusedSite acceptedSite decide2)
 
 def kvS (ws : List String) (k : String) : String := (kv? ws k).getD "-"
 def kvN (ws : List String) (k : String) : Nat := (kvNat? ws k).getD 0
@@ -21,37 +19,13 @@ def kvL (ws : List String) (k : String) : List Nat := natList (kvS ws k)
 def parts (sep : String) (s : String) : List String := if s = "-" ∨ s = "" then [] else s.splitOn sep
 
 def optNat (s : String) : Option Nat := s.toNat?
-def showOpt (o : Option Nat) : String := match o with | some v => toString v | none => "x"
 
 /-- "none" / "x" / number -/
 def parseOptNat (s : String) : Option Nat := s.toNat?
 
-/-! plain-set helpers for monitors -/
-def sameSet [BEq α] (a b : List α) : Bool := a.all (b.contains ·) && b.all (a.contains ·)
-def nodupB [BEq α] : List α → Bool
-  | [] => true
-  | x :: xs => !xs.contains x && nodupB xs
 def sortN (l : List Nat) : List Nat := l.mergeSort (fun a b => decide (a ≤ b))
 def sortP (l : List (Nat × Nat)) : List (Nat × Nat) :=
   l.mergeSort (fun a b => decide (a.1 < b.1 ∨ (a.1 = b.1 ∧ a.2 ≤ b.2)))
-
-/-- a failed monitor check: the first `some` wins -/
-def firstFail (l : List (Option String)) : Option String := l.findSome? id
-
-def chk (c : Bool) (msg : String) : Option String := if c then none else some msg
-
-/-- verdict sites. A capacity limit is named per ENTRY POINT: `limit.<entry point>.<capacity>`;
-`..._exact_refused` = the implementation refused an operation that lands exactly on the documented
-capacity, `..._over_accepted` = it accepted one that goes past it. -/
-def refusedSite (reg near : String) : String :=
-  if near.startsWith "limit." then
-    s!"site={reg}.{near}_exact_refused the implementation refused an operation that reaches the documented capacity exactly (the plain structure with its documented limits accepts it)"
-  else s!"site={reg}.{near}_refused the implementation refused an operation the plain structure (with its documented limits) accepts"
-
-def acceptedSite (reg why : String) : String :=
-  if why.startsWith "limit." then
-    s!"site={reg}.{why}_over_accepted the implementation accepted an operation that exceeds the documented capacity ({why})"
-  else s!"site={reg}.{why}_accepted the implementation accepted an operation the plain structure refuses ({why})"
 
 /-- `a..b` (half open) or a comma list -/
 def rangeOrList (s : String) : List Nat :=
